@@ -293,12 +293,14 @@ prop(
 
 prop(
     "C15",
-    ["LolHtml.Thm.C15_Core"],
+    ["LolHtml.Thm.C15_Core", "LolHtml.Thm.C15_Full"],
     [{"lane": "lex", "n_quick": 4000, "n_thorough": 200000},
-     {"lane": "fault", "n_quick": 3000, "n_thorough": 60000}],
-    LEX_RULE + "; every lane of the harness runs in a build with overflow checks and debug assertions, each case under catch_unwind (a panic is an observation `PANIC …`, compared with the model which makes every panic site explicit)",
+     {"lane": "fault", "n_quick": 3000, "n_thorough": 60000},
+     {"lane": "patho", "n_quick": 200, "n_thorough": 400, "impl_only": True}],
+    LEX_RULE + "; every lane of the harness runs in a build with overflow checks and debug assertions, each case under catch_unwind (a panic is an observation `PANIC …`, compared with the model which makes every panic site explicit); lane patho (implementation only): pathological shapes (deep nesting, one giant tag name / attribute list / attribute value / comment / doctype, '<' and '</' runs, foreign content, script escapes, select, CDATA, random markup bytes, hundreds of selectors, random selector strings) at sizes up to 4*10^6 bytes, in one write and in 4 KiB writes, with a deterministic work oracle (bytes handed to Parser::parse, counted by a hook, <= 2*len + 4 KiB) and a hard CPU bound",
     ["covers the parser / dispatcher / transform-stream core; panics in selectors/cssparser/encoding_rs/std and in the packages' own scopes (selector VM: C04_vm_never_panics; handlers: C05_no_panic; memory: C10_error_not_panic; nth: C04_nth_total) are those packages' theorems",
-     "two panic sites remain open (U2): 'Tag should be a start tag at this point' (pending aux-info request answered by an end tag) and the RequestLexeme callback assertion; both need scanner/lexer agreement across a mode switch (C06 hkey)",
+     "two panic sites remain open (U2): 'Tag should be a start tag at this point' (pending aux-info request answered by an end tag) and the RequestLexeme callback assertion. Both are proved unreachable LOCALLY (C15_start_tag_site_local, C15_callback_site_local: given that the re-lexed tag is the hinted one, which is C06_relex_same_tag) and C15_no_panic_full_of_agreement reduces the full statement to that agreement; the global threading of the agreement through parseLoop / Stream.write is not proved (C15_no_panic_full_statement stays a statement)",
+     "known finding F29: a token spanning many writes is re-lexed from its start on every write (quadratic work), found by lane patho",
      "the controller itself never returns a panic/internal-class error (CtlClean)", MODEL_SCOPE],
     level_text=("Lean 4 theorem C15_no_panic: for every tokenizer table satisfying decidable side-conditions (targets exist, "
                 "exhaustive arms, quiet enter actions, an abstract flag analysis of every arm's action list, a rank decreasing "
@@ -336,10 +338,10 @@ prop(
 
 prop(
     "C06",
-    ["LolHtml.Thm.C06_Scan"],
+    ["LolHtml.Thm.C06_Scan", "LolHtml.Thm.C06_Relex"],
     [{"lane": "lex", "n_quick": 4000, "n_thorough": 200000}],
     LEX_RULE + "; oracle: every schedule S is also run as S u O for four observer sets O (TEXT, COMMENTS, DOCTYPES, every tag) and the events H would receive, the result and the sink bytes must be identical",
-    ["the top-level independence statement (dispatcher-level induction over mode switches: the re-lexed tag is the hinted one, got_flags_from_hint bookkeeping) is stated (C06_independence_statement) but not proved; the oracle covers it",
+    ["the top-level independence statement (dispatcher-level induction over mode switches, got_flags_from_hint bookkeeping) is stated (C06_independence_statement) but not proved; the oracle covers it. Its key step IS proved: the lexer loaded from the scanner's bookmark re-lexes the hinted tag (C06_relex_same_tag)",
      "known finding F27: strict-mode ParsingAmbiguity on an unterminated tag at end of input depends on the handler set",
      MODEL_SCOPE],
     level_text=("Lean 4 theorems over the two action sets running the same table: one state-function step from related "
@@ -347,8 +349,12 @@ prop(
                 "C06_run_simulation, C06_break_together); outside tags all steering registers and the simulator state are "
                 "equal and the scanner's hint log equals the lexer's tag-lexeme log, inside a tag the scanner is exactly one "
                 "simulator event ahead (C06_boundary_agreement, C06_inTag_one_ahead); both mode switches re-establish the "
-                "relation (C06_switch_*); adding capture flags never turns lex into scan. Side-condition PhaseOk on the "
-                "generated table. PARTIAL: C06_independence is a statement + oracle."),
+                "relation (C06_switch_*); adding capture flags never turns lex into scan. When the scanner hands over with "
+                "directive lex and a bookmark, every lexer loaded from that bookmark makes exactly |head| silent calls and runs "
+                "finish_tag_name on a token with the same kind, name hash and name range (C06_relex_same_tag), nothing between "
+                "finish_tag_name and emit_tag touches kind/hash/name/feedback (C06_relex_intag) and emit_tag hands that token "
+                "to handle_tag (C06_relex_emit). Side-conditions PhaseOk, TextTypeOk (what F1 violated: C06_textTypeOk_rejects_F1) "
+                "and RelexOk on the generated table by decide +kernel. PARTIAL: C06_independence is a statement + oracle."),
     level_note="Trusted: Lean kernel; DSL translator; the core model (lane lex).",
     technique="Lean 4 proof (simulation relation between the two machines, preserved by every table arm) + correspondence lane + H vs H u O oracle",
     design_ref="DESIGN.md section 4 C06",
@@ -360,25 +366,26 @@ prop(
     ["LolHtml.Thm.C16_Attrs"],
     [{"lane": "attrs", "n_quick": 3000, "n_thorough": 32000},
      {"lane": "edit", "n_quick": 1500, "n_thorough": 15000}],
-    "lane edit (secondary: reads after edits surface in the serialised output); lane attrs: one start tag (all attribute syntaxes, odd characters, '/' placements, upper case, non-ASCII bytes, html/svg/math context, cut anywhere) through the real HtmlRewriter (element handler: tag_name, attributes(), get/has_attribute, is_self_closing, can_have_content, namespace_uri, locations) vs model + Spec.Attrs; oracle: independent WHATWG attribute parser cross-checked with html5ever",
-    ["edits (set_attribute / remove_attribute / set_tag_name) followed by reads are package edit's", "the byte-level API model presumes the read accessors decode bijectively (windows-1252 in the lane); BOM-prefixed names/values are a finding"],
-    level_text="Lean 4 theorems for every input byte string: the lexer on the generated table follows Spec.Attrs (C16_outline, unfinished, across a chunk break), emit_tag hands exactly that outline to the sink (C16_emit_tag), lookups/context on the token (C16_lookup, C16_context); F8/F9 refuted statements.",
+    "lane edit (secondary: reads after edits surface in the serialised output); lane attrs: one start tag (all attribute syntaxes, odd characters, '/' placements, upper case, non-ASCII bytes, html/svg/math context, cut anywhere) through the real HtmlRewriter (element handler: tag_name, attributes(), get/has_attribute, is_self_closing, can_have_content, namespace_uri, locations; then, in about 45 % of the cases, an edit script set_attribute / remove_attribute / set_tag_name — attribute-less tags, duplicates, case variants, set-then-remove, remove-then-set, rejected names — after which tag_name, attributes() and the queries are read again) vs model + Spec.Attrs; oracle: independent WHATWG attribute parser cross-checked with html5ever, and an independent list algebra for the reads after edits (tag edit-read)",
+    ["the byte-level API model presumes the read accessors decode bijectively (windows-1252 in the lane); BOM-prefixed names/values are a finding (no edit scripts on such tags)",
+     "serialisation of an edited tag is C07's (package edit), not read back here"],
+    level_text="Lean 4 theorems for every input byte string: the lexer on the generated table follows Spec.Attrs (C16_outline, unfinished, across a chunk break), emit_tag hands exactly that outline to the sink (C16_emit_tag), lookups/context on the token (C16_lookup, C16_context), reads after edits on the same token (C16_reads_after_edits: set -> first match replaced or appended, remove -> every match gone, rename -> lower-cased new name; materialising the list changes no read; rejected edits change nothing); F8 (lookup and remove_attribute) / F9 refuted statements.",
     level_note="Trusted: Lean kernel; Spec.Attrs (WHATWG reading); model tied by lanes lex and attrs.",
-    technique="Lean 4 proof (symbolic evaluation of the DSL interpreter per state and byte class + induction over the input) + correspondence lane",
+    technique="Lean 4 proof (symbolic evaluation of the DSL interpreter per state and byte class + induction over the input; list algebra for the edit API) + correspondence lane",
     design_ref="DESIGN.md section 4 C16",
 )
 
 prop(
     "C14",
-    ["LolHtml.Thm.C14_Locations"],
+    ["LolHtml.Thm.C14_Locations", "LolHtml.Thm.C14_TextNodes"],
     [{"lane": "attrs", "n_quick": 2000, "n_thorough": 20000}, {"lane": "lex", "n_quick": 2000, "n_thorough": 30000}],
     LEX_RULE,
-    ["C14_ranges is for controllers that do not switch emission off (NoRemoval; handlers may rewrite and may fail); element content removal needs the lexer register invariant remaining_content_start <= lexeme_start (package inv)",
-     "contiguity of the chunks of one text node is stated (C14_text_contiguous_statement), not proved: needs adjacency of consecutive lexemes",
+    ["C14_ranges_all_controllers assumes CtlClean (an error returned by a handler is a handler-class error, not one of the model's markers for a Rust panic) and the decidable table side-conditions WfTable (package inv) and EmitsChecked, both evaluated on the generated table; C14_text_contiguous and C14_independent_of_rewrites need EmitsChecked only and no assumption on the controller",
+     "text-node theorems are about the tokens the dispatcher model hands over (one chunk per text lexeme plus the closing chunk); the split of one lexeme into decoder chunks is package enc's model (C13), joined by C14_text_node_decoder_ranges; that a text node's lexemes are what the standard calls one text node is C01/C03's subject",
      MODEL_SCOPE],
-    level_text="Lean 4 theorems: every token carries src = prevConsumed + raw with raw bytes = the input bytes (C14_src), prevConsumed grows by the bytes consumed (C14_offset), the tokens handed to the controller are ordered and pairwise disjoint within and across writes for every table with EmitsChecked, chunking and rewriting / failing (non-removing) controller (C14_ranges), attribute name/value locations are exactly the document ranges Spec.Attrs reads, inside the tag (C14_attr_locations). PARTIAL.",
-    level_note="Trusted: Lean kernel; model of dispatcher/transform_stream (lane lex), read API (lane attrs).",
-    technique="Lean 4 proof (located sink-preservation over the interpreter + dispatcher location invariant) + correspondence lanes",
+    level_text="Lean 4 theorems: every token carries src = prevConsumed + raw with raw bytes = the input bytes (C14_src), prevConsumed grows by the bytes consumed (C14_offset); for EVERY controller (rewriting, removing element content, failing) the tokens handed over are well-formed, ordered and pairwise disjoint within and across writes (C14_ranges_all_controllers, using package inv's register invariant); the chunks of one text node are contiguous — each non-last chunk is followed by a text chunk starting at its end, every range is as long as its bytes, the closing chunk sits at the end (C14_text_contiguous, C14_text_node_layout) — and the decoder-level chunks of the node are contiguous and cover exactly that interval (C14_text_node_decoder_ranges, with C13_decoder); two controllers differing only in the bytes they emit receive the same tokens (C14_independent_of_rewrites); attribute name/value locations are exactly the document ranges Spec.Attrs reads, inside the tag (C14_attr_locations).",
+    level_note="Trusted: Lean kernel; model of dispatcher/transform_stream (lane lex), read API (lane attrs), text decoder (lane enc).",
+    technique="Lean 4 proof (sink-preservation / relational parametricity / joint lexer-sink invariants over the interpreter + dispatcher invariants) + correspondence lanes",
     design_ref="DESIGN.md section 4 C14",
 )
 
